@@ -30,44 +30,51 @@ theorem stpHdr_length (l : STP) (h1 : l.routeID.hwAddr.length = 6) (h2 : l.bridg
   rw [padHw_of_six _ h1, padHw_of_six _ h2]
   simp only [List.length_append, putBe16_length, putBe32_length, List.length_singleton, h1, h2]
 
+/-- Reading the fields of a BPDU out of 35 explicit bytes (pure list computation on opaque bytes). -/
+theorem read35 (x0 x1 x2 x3 x4 x5 x6 x7 x8 x9 x10 x11 x12 x13 x14 x15 x16 x17 x18 x19 x20 x21 x22 x23 x24
+    x25 x26 x27 x28 x29 x30 x31 x32 x33 x34 : UInt8) (p : Bytes) :
+    let H := [x0, x1, x2, x3, x4, x5, x6, x7, x8, x9, x10, x11, x12, x13, x14, x15, x16, x17, x18, x19, x20,
+              x21, x22, x23, x24, x25, x26, x27, x28, x29, x30, x31, x32, x33, x34]
+    stpDecSpec (H ++ p) =
+      { layer :=
+          { contents := H, payload := p,
+            protocolID := be16 x0 x1, version := x2.toNat, type := x3.toNat,
+            tc := (x4.toNat &&& 0x01 != 0), tca := (x4.toNat &&& 0x80 != 0),
+            routeID := { priority := be16 x5 x6 &&& 0xf000, sysID := be16 x5 x6 &&& 0x0fff,
+                         hwAddr := [x7, x8, x9, x10, x11, x12] },
+            cost := be32 x13 x14 x15 x16,
+            bridgeID := { priority := be16 x17 x18 &&& 0xf000, sysID := be16 x17 x18 &&& 0x0fff,
+                          hwAddr := [x19, x20, x21, x22, x23, x24] },
+            portID := be16 x25 x26, messageAge := be16 x27 x28, maxAge := be16 x29 x30,
+            helloTime := be16 x31 x32, fDelay := be16 x33 x34 },
+        trunc := false, err := false } := by
+  intro H
+  rfl
+
 theorem stpDecSpec_frame (l : STP) (p : Bytes) (hw : wfStp l) :
     stpDecSpec (stpHdr l ++ p) =
       { layer := { l with contents := stpHdr l, payload := p }, trunc := false, err := false } := by
   obtain ⟨hpid, hver, hty, hr, hcost, hb, hport, hage, hmax, hhello, hfd⟩ := hw
-  have hlen := stpHdr_length l hr.2.2.2 hb.2.2.2
   obtain ⟨rv, rp, rs⟩ := switch_word l.routeID hr
   obtain ⟨bv, bp, bs⟩ := switch_word l.bridgeID hb
   obtain ⟨ft, fa⟩ := flag_bits l.tc l.tca
   obtain ⟨c, pl, pid, ver, ty, tc, tca, ⟨rprio, rsys, rhw⟩, ⟨bprio, bsys, bhw⟩, cost, port, age, mx, hello, fd⟩ := l
-  simp only at hpid hver hty hr hcost hb hport hage hmax hhello hfd hlen rv rp rs bv bp bs ft fa ⊢
+  simp only at hpid hver hty hr hcost hb hport hage hmax hhello hfd rv rp rs bv bp bs ft fa ⊢
   obtain ⟨r0, r1, r2, r3, r4, r5, rfl⟩ := six_of_length rhw hr.2.2.2
   obtain ⟨b0, b1, b2, b3, b4, b5, rfl⟩ := six_of_length bhw hb.2.2.2
-  generalize hS : STP.mk c pl pid ver ty tc tca ⟨rprio, rsys, [r0, r1, r2, r3, r4, r5]⟩
-    ⟨bprio, bsys, [b0, b1, b2, b3, b4, b5]⟩ cost port age mx hello fd = L at hlen ⊢
-  have e0 : u16At (stpHdr L ++ p) 0 = be16 (u8 (pid / 256)) (u8 pid) := by subst hS; rfl
-  have e2 : byteAt (stpHdr L ++ p) 2 = (u8 ver).toNat := by subst hS; rfl
-  have e3 : byteAt (stpHdr L ++ p) 3 = (u8 ty).toNat := by subst hS; rfl
-  have e4 : byteAt (stpHdr L ++ p) 4 =
-      (u8 (if tca then (if tc then 0x00 ||| 0x01 else 0x00) ||| 0x80 else (if tc then 0x00 ||| 0x01 else 0x00))).toNat := by
-    subst hS; rfl
-  have e5 : u16At (stpHdr L ++ p) 5 = be16 (u8 ((rprio ||| rsys) / 256)) (u8 (rprio ||| rsys)) := by subst hS; rfl
-  have e7 : ((stpHdr L ++ p).drop 7).take 6 = [r0, r1, r2, r3, r4, r5] := by subst hS; rfl
-  have e13 : u32At (stpHdr L ++ p) 13 =
-      be32 (u8 (cost / 16777216)) (u8 (cost / 65536)) (u8 (cost / 256)) (u8 cost) := by subst hS; rfl
-  have e17 : u16At (stpHdr L ++ p) 17 = be16 (u8 ((bprio ||| bsys) / 256)) (u8 (bprio ||| bsys)) := by subst hS; rfl
-  have e19 : ((stpHdr L ++ p).drop 19).take 6 = [b0, b1, b2, b3, b4, b5] := by subst hS; rfl
-  have e25 : u16At (stpHdr L ++ p) 25 = be16 (u8 (port / 256)) (u8 port) := by subst hS; rfl
-  have e27 : u16At (stpHdr L ++ p) 27 = be16 (u8 (age / 256)) (u8 age) := by subst hS; rfl
-  have e29 : u16At (stpHdr L ++ p) 29 = be16 (u8 (mx / 256)) (u8 mx) := by subst hS; rfl
-  have e31 : u16At (stpHdr L ++ p) 31 = be16 (u8 (hello / 256)) (u8 hello) := by subst hS; rfl
-  have e33 : u16At (stpHdr L ++ p) 33 = be16 (u8 (fd / 256)) (u8 fd) := by subst hS; rfl
-  unfold stpDecSpec
-  rw [e0, e2, e3, e4, e5, e7, e13, e17, e19, e25, e27, e29, e31, e33, List.take_left' hlen, List.drop_left' hlen,
-    be16_putBe16 _ hpid, be16_putBe16 _ rv, be16_putBe16 _ bv, be32_putBe32 _ hcost, be16_putBe16 _ hport,
+  have hH : stpHdr (STP.mk c pl pid ver ty tc tca ⟨rprio, rsys, [r0, r1, r2, r3, r4, r5]⟩
+      ⟨bprio, bsys, [b0, b1, b2, b3, b4, b5]⟩ cost port age mx hello fd) =
+      [u8 (pid / 256), u8 pid, u8 ver, u8 ty,
+       u8 (if tca then (if tc then 0x00 ||| 0x01 else 0x00) ||| 0x80 else (if tc then 0x00 ||| 0x01 else 0x00)),
+       u8 ((rprio ||| rsys) / 256), u8 (rprio ||| rsys), r0, r1, r2, r3, r4, r5,
+       u8 (cost / 16777216), u8 (cost / 65536), u8 (cost / 256), u8 cost,
+       u8 ((bprio ||| bsys) / 256), u8 (bprio ||| bsys), b0, b1, b2, b3, b4, b5,
+       u8 (port / 256), u8 port, u8 (age / 256), u8 age, u8 (mx / 256), u8 mx,
+       u8 (hello / 256), u8 hello, u8 (fd / 256), u8 fd] := rfl
+  rw [hH, read35]
+  rw [be16_putBe16 _ hpid, be16_putBe16 _ rv, be16_putBe16 _ bv, be32_putBe32 _ hcost, be16_putBe16 _ hport,
     be16_putBe16 _ hage, be16_putBe16 _ hmax, be16_putBe16 _ hhello, be16_putBe16 _ hfd, u8_toNat, u8_toNat,
     Nat.mod_eq_of_lt hver, Nat.mod_eq_of_lt hty, ft, fa, rp, rs, bp, bs]
-  subst hS
-  rfl
 
 /-- Every successfully decoded BPDU is well-formed. -/
 theorem stpDecSpec_wf (v : Bytes) (h : 35 ≤ v.length) : wfStp (stpDecSpec v).layer := by
